@@ -419,7 +419,7 @@ class Lexer:
                         "invalid escape sequence",
                         token=ErrorToken(
                             type_=TokenType.ERROR,
-                            index=self.pos,
+                            index=min(self.pos, len(self.source) - 1),
                             value=peeked,
                             markup_start=self.markup_start,
                             markup_stop=self.pos,
@@ -437,7 +437,7 @@ class Lexer:
                     "unclosed string literal",
                     token=ErrorToken(
                         type_=TokenType.ERROR,
-                        index=self.start,
+                        index=min(self.start, len(self.source) - 1),
                         value=self.source[self.start : self.start + 1],
                         markup_start=self.markup_start,
                         markup_stop=self.pos,
@@ -485,7 +485,7 @@ class Lexer:
                         "invalid escape sequence",
                         token=ErrorToken(
                             type_=TokenType.ERROR,
-                            index=self.pos,
+                            index=min(self.pos, len(self.source) - 1),
                             value=peeked,
                             markup_start=self.markup_start,
                             markup_stop=self.pos,
@@ -575,7 +575,7 @@ class Lexer:
                     "unclosed string or template string expression",
                     token=ErrorToken(
                         type_=TokenType.ERROR,
-                        index=self.start,
+                        index=min(self.start, len(self.source) - 1),
                         value=self.source[self.start : self.start + 1],
                         markup_start=self.markup_start,
                         markup_stop=self.pos,
@@ -773,7 +773,7 @@ class Lexer:
             msg,
             token=ErrorToken(
                 type_=TokenType.ERROR,
-                index=self.pos,
+                index=min(self.pos, len(self.source) - 1),
                 value=self.source[self.start : self.pos],
                 markup_start=self.markup_start,
                 markup_stop=self.pos,
